@@ -218,6 +218,9 @@ def wrappers():
         ('wrap-cols', lambda inner, names, types: select([(col(n), None) for n in names], from_=inner)),
         ('wrap-filter', lambda inner, names, types: select([(col(n), None) for n in names], from_=inner, where=A.IsNotNull(col(names[0])))),
         ('wrap-limit', lambda inner, names, types: select([(col(n), None) for n in reversed(names)], from_=inner, limit=2)),
+        # `*` at two nesting levels over sub-queries of DIFFERENT shape (reversed column order / first column only)
+        ('wrap-star-reversed', lambda inner, names, types: select([(col(n), None) for n in reversed(names)], from_=select(A.Asterisk(), from_=inner))),
+        ('wrap-star-first', lambda inner, names, types: select([(col(names[0]), None)], from_=select(A.Asterisk(), from_=inner))),
     ]
 
 
@@ -257,8 +260,10 @@ def run_job(job, seed, acc, variant=None):
     names, types = [n for n, _ in d], [t for _, t in d]
     if wi is not None:
         wname, wrap = wrappers()[wi]
-        if wname in ('wrap-limit',):
+        if wname in ('wrap-limit', 'wrap-star-reversed'):
             names2, types2 = list(reversed(names)), list(reversed(types))
+        elif wname == 'wrap-star-first':
+            names2, types2 = names[:1], types[:1]
         else:
             names2, types2 = names, types
         inner = wrap(inner, names, types)
@@ -377,7 +382,7 @@ def shard_fn(shard, nshards, seed, tier):
     idx = 0
     for variant in vs:
         for i, job in enumerate(js):
-            if tier == 'quick' and job[0] == 3 and job[2] not in (0, 2):
+            if tier == 'quick' and job[0] == 3 and job[2] not in (0, 2, 4):
                 continue
             idx += 1
             if mine(idx, shard, nshards):
@@ -422,7 +427,7 @@ def run(ctx):
                 'or one IN/NOT IN statement compared with the reference; distinct_nontrivial = distinct result row lists',
         'exhaustive': True,
         'bound': f'{len(inner_menu())} inner queries x generated outer menu (10-25 per inner), depth 2 complete; depth 3 with '
-                 f'{"2 of 4" if ctx.quick else "all 4"} wrappers; {len(in_statements())} IN statements; {len(TEXTS)} text statements',
+                 f'{"3 of 6" if ctx.quick else "all 6"} wrappers; {len(in_statements())} IN statements; {len(TEXTS)} text statements',
         'data_variants_of_t (fixed table + all row sequences of length <= L over 9 letters)': sorted(acc.sets['variants']),
         'depth2': n['depth2'], 'depth3': n['depth3'], 'in_statements': n['in_statements'], 'text_statements': n['text_statements'],
         'reference_compared': n['ref_compared'], 'reference_unsupported': n['ref_unsupported'], 'both_rejected': n['both_rejected'],
